@@ -68,6 +68,8 @@ func (g *Grammar) goFieldType(prefix string, f Field) string {
 		return "[]gram.CapStr"
 	case FText:
 		return "gram.TextStr"
+	case FParsR:
+		return "*gram.PTokR"
 	case FCust:
 		return "gram.PI"
 	case FCusts:
